@@ -60,6 +60,10 @@ pub fn gen_strings(rng: &mut Rng, non_ascii: bool) -> String {
         1 if non_ascii => rng.pick(uni).to_string(),
         3 | 4 if non_ascii && rep == 3 => rng.pick(uni).to_string(),
         2 => "q".repeat(rng.below(300) as usize),
+        5 if non_ascii && rep == 1 && rng.chance(1, 3) => {
+            // beyond the encoder's 1 KiB chunk, with a multi-byte character across a chunk boundary
+            format!("{}\u{e9}{}\u{65e5}", "p".repeat(1022 + rng.below(3) as usize), "q".repeat(1020 + rng.below(5) as usize))
+        }
         _ => rng.pick(&base).to_string(),
     }
 }
@@ -178,6 +182,10 @@ pub fn gen_cond(rng: &mut Rng, cols: &[ColDef], rows: &[Vec<V>]) -> Option<E> {
         }
         for v in [V::Null, V::Int(0), V::Int(1), V::Int(2), V::Int(-1), V::Str("".into()), V::Str("a".into())] {
             leaves.push(E::Lit(v));
+        }
+        if rng.chance(1, 6) {
+            // a name the table does not have, possibly behind an operand that decides the result
+            leaves.push(E::Col("Nope".into()));
         }
         if !rows.is_empty() {
             let r = &rows[rng.below(rows.len() as u64) as usize];
